@@ -57,9 +57,9 @@ JudgeSolve(e, again) ==
     LET s == e.x
         pred == series'[s]
         hyp == AsFound_VarListCached \/ AsFound_TraceBreaksFunctions \/ Hyp_SharedFunctions \/ Hyp_RhsCachedByName
-               \/ Hyp_SteadyOneShot
+               \/ Hyp_SteadyOneShot \/ Hyp_SettingsSurviveReparse
     IN IF pred.ok /\ pred.full /\ pred.keys = SeriesKeys(block'[s]) /\ pred.body = pred.own /\ pred.eqs = block'[s]
-          /\ pred.ss = pred.want
+          /\ pred.ss = pred.want /\ pred.hz = BlockInfo[block'[s]].horizon /\ pred.tol = BlockInfo[block'[s]].tol
        THEN IF ~e.same_keys /\ parses'[s] > 1 THEN Prop("C17_ReparseClean")
             ELSE IF ~e.ok THEN Prop("C17_HistoryIndependent")
             ELSE IF ~e.full /\ parses'[s] > 1 THEN Prop("C17_ReparseClean")
@@ -68,6 +68,7 @@ JudgeSolve(e, again) ==
             ELSE IF SeqToSet(e.varlist) # varList'[s] THEN Drift("variable_list")
             ELSE IF e.nk # nK'[s] THEN Drift("exogenous_k_entries")
             ELSE IF e.steady # steady'[s] THEN Drift("steady_option")
+            ELSE IF e.hz # setg'[s].hz \/ e.tol # setg'[s].tol THEN Drift("parser_settings")
             ELSE JudgeProcess(e)
        ELSE IF ~hyp
        THEN \* the block calls a function this solver was never given: alone it raises NameError, so it must here
@@ -95,6 +96,7 @@ Reset ==
     /\ rhsFrom' = [s \in Solvers |-> NoBlock]
     /\ steady' = [s \in Solvers |-> FALSE]
     /\ wantSteady' = [s \in Solvers |-> FALSE]
+    /\ setg' = [s \in Solvers |-> NoSettings]
     /\ nK' = [s \in Solvers |-> 0]
     /\ parses' = [s \in Solvers |-> 0]
     /\ traceStep' = [x \in Holders |-> 0]
